@@ -69,6 +69,7 @@ func main() {
 	keepF := flag.Bool("keep", false, "keep the work directory")
 	onlyF := flag.String("only", "", "only the runs whose name contains this string (development aid; evidence is still written)")
 	verbose := flag.Bool("v", false, "print the output of every test process")
+	noEvidence := flag.Bool("noevidence", false, "do not touch evidence/ and replays/ (sensitivity runs against a mutated copy): write them to the work directory")
 	// accept "check C01 --tier quick" as well as "check --tier quick C01"
 	args := os.Args[1:]
 	var id string
@@ -305,8 +306,13 @@ func main() {
 	ev := newEvidence(p, tier, seed)
 	inconclusive := []string{}
 	violations := []string{}
-	os.MkdirAll(filepath.Join(verifDir, "replays"), 0o755)
-	os.MkdirAll(filepath.Join(verifDir, "evidence"), 0o755)
+	outDir := verifDir
+	if *noEvidence {
+		outDir = work
+	}
+	replayDir = filepath.Join(outDir, "replays")
+	os.MkdirAll(replayDir, 0o755)
+	os.MkdirAll(filepath.Join(outDir, "evidence"), 0o755)
 	known := map[string]bool{}
 	for _, r := range results {
 		label := fmt.Sprintf("%s/shard%d/gomaxprocs%d", r.run.Name, r.shard, r.gomax)
@@ -382,7 +388,7 @@ func main() {
 	if len(inconclusive) > 0 {
 		ev.Coverage["inconclusive"] = inconclusive
 	}
-	if err := ev.write(filepath.Join(verifDir, "evidence", p.ID+".json")); err != nil {
+	if err := ev.write(filepath.Join(outDir, "evidence", p.ID+".json")); err != nil {
 		fmt.Fprintln(os.Stderr, "cannot write evidence:", err)
 		exit(2)
 	}
@@ -519,10 +525,12 @@ func runProc(p *propSpec, r runSpec, shard, gomax int, tier string, seed int64, 
 	return res
 }
 
+var replayDir string
+
 func saveReplay(id string, f *failure) string {
 	b, _ := json.MarshalIndent(f, "", " ")
 	h := sha1.Sum(b)
-	path := filepath.Join(verifDir, "replays", fmt.Sprintf("%s-%s-%x.json", id, sanitize(f.Test), h[:4]))
+	path := filepath.Join(replayDir, fmt.Sprintf("%s-%s-%x.json", id, sanitize(f.Test), h[:4]))
 	os.WriteFile(path, b, 0o644)
 	return path
 }
